@@ -58,9 +58,9 @@ ENGINES = [
  {'name': 'E5 diff', 'path': 'internal/e1/diff.go', 'serves_properties': ['C03','C17'], 'kind_free_text': 'one recorded history, two runs (other sessions removed / flag set), normalised stream equality'},
  {'name': 'E2 conc', 'path': 'internal/e2', 'serves_properties': ['C01','C02','C07','C10','C11'], 'kind_free_text': 'gated interleavings at injected scheduling points (verifrt sched mode), order-free oracles at quiescence'},
  {'name': 'E3 race', 'path': 'internal/e3', 'serves_properties': ['C09'], 'kind_free_text': 'client storms on -race builds, race-report extraction and deduplication'},
- {'name': 'E4 fault', 'path': 'internal/e4', 'serves_properties': ['C06','C08'], 'kind_free_text': 'offence catalogue x life phase, bursts; liveness oracles'},
- {'name': 'E6 in vivo', 'path': 'sut/e6grid, sut/e6ids', 'serves_properties': ['C10','C20'], 'kind_free_text': 'real objects (grid, id generator) driven in child processes that log the input in flight; invariant walkers, exact references, porcupine'},
- {'name': 'E7 system', 'path': 'internal/fakes, internal/sut (StartReal)', 'serves_properties': ['C15','C19'], 'kind_free_text': 'real binary behind fake discovery / credit services'},
+ {'name': 'E4 fault', 'path': 'internal/e4', 'serves_properties': ['C02','C06','C08'], 'kind_free_text': 'offence catalogue x life phase, bursts; liveness oracles'},
+ {'name': 'E6 in vivo', 'path': 'sut/e6grid, sut/e6ids, sut/e6store', 'serves_properties': ['C10','C12','C20'], 'kind_free_text': 'real objects (grid, id generator) driven in child processes that log the input in flight; invariant walkers, exact references, porcupine'},
+ {'name': 'E7 system', 'path': 'internal/fakes, internal/sut (StartReal)', 'serves_properties': ['C09','C15','C17'], 'kind_free_text': 'real binary behind fake discovery / credit services'},
  {'name': 'overlay+verifrt', 'path': 'internal/instr, overlaysrc/verifrt', 'serves_properties': [], 'kind_free_text': 'go/ast source instrumenter writing a build overlay of the current /repo tree; scheduling-point runtime (jitter, gates)'},
  {'name': 'lab SUT', 'path': 'sut/labsut', 'serves_properties': [], 'kind_free_text': 'harness-owned main wiring the same packages as cmd/main.go; always a child process'},
 ]
